@@ -131,6 +131,19 @@ def bounded(ses):
             root = f"/c13/k{k}_{level}"
             fs, images, names = e2e.make_product(root, k=k, level=level, seed=ses.seed, mapproj=mapproj)
             trees = [open_alos2(f"memory://{root}", backend_options={"records_per_chunk": 2, "use_cache": False}) for _ in range(2)]
+            # the same product opened through the index cache it has just written: still one correctly named group per image
+            # (pixels are not compared here: on a non-local filesystem cached arrays are C07's known finding)
+            open_alos2(f"memory://{root}", backend_options={"records_per_chunk": 2, "use_cache": False, "create_cache": True})
+            cached = open_alos2(f"memory://{root}", backend_options={"records_per_chunk": 2, "use_cache": True})
+            want_names = [e2e.group_name(p, s) for p, s, _ in images]
+            n += 1
+            if list(cached["imagery"].children) != want_names:
+                bad.append((root, ("imagery children via cache", list(cached["imagery"].children), want_names)))
+            else:
+                for (p, s, d), nm in zip(images, want_names):
+                    node = cached[f"imagery/{nm}"]
+                    if tuple(node["data"].shape) != d.shape:
+                        bad.append((root, ("cached group holds another image", nm, tuple(node["data"].shape), d.shape)))
             for t in trees:
                 n += 1
                 want_names = [e2e.group_name(p, s) for p, s, _ in images]
